@@ -533,9 +533,28 @@ def elementwise(name, eqn, ins, ctx):
     if name == 'fft':
         ft = int(eqn.params['fft_type'])
         lengths = tuple(eqn.params['fft_lengths'])
-        if len(lengths) != 1 or ft not in (0, 1):
+        if len(lengths) != 1 or ft not in (0, 1, 2, 3):
             raise Unsupported(f'fft type {eqn.params["fft_type"]} lengths {lengths}')
-        return [dft_last_axis(ctx.field, o[0], lengths[0], ft == 1)]
+        n = lengths[0]
+        if ft in (0, 1):
+            return [dft_last_axis(ctx.field, o[0], n, ft == 1)]
+        if ft == 2:  # RFFT: the first n//2+1 coefficients of the DFT of a real signal
+            full = dft_last_axis(ctx.field, o[0], n, False)
+            return [full[..., : n // 2 + 1]]
+        # IRFFT: Hermitian completion of the half spectrum, inverse DFT, real part
+        half = o[0]
+        if half.shape[-1] != n // 2 + 1:
+            raise Unsupported(f'irfft: input length {half.shape[-1]} for output length {n}')
+        F = ctx.field
+        full = np.empty(half.shape[:-1] + (n,), dtype=object)
+        for k in range(n):
+            if k <= n // 2:
+                full[..., k] = half[..., k]
+            else:
+                src = half[..., n - k]
+                full[..., k] = _map(lambda v: Cyc.of(F, v).conj(), src) if src.ndim else Cyc.of(F, src[()]).conj()
+        res = dft_last_axis(F, full, n, True)
+        return [_map(_real_part, res)]
     if name == 'real':
         return [_map(lambda v: v.real().c[0] if isinstance(v, Cyc) and v.real().is_rational()
                      else (_real_part(v)), o[0])]
